@@ -107,6 +107,9 @@ def run(chk):
                     why += f'l={l}: {w}; '
             chk.ob('R08.3', inst, not why, why, where, key=f'R08.3|{inst}', method='node identity')
             chk.note_analysed('functions', f'{fr.mod.name.split(".")[-1]}.{fr.node.name}')
+    from .common import registry_writers
+    registry_writers(chk, 'R08.3', repo, 'TidalPy/tides/modes/mode_calc_helper/__init__.py', ['eccentricity_functions_lookup'])
+    registry_writers(chk, 'R08.3', repo, 'TidalPy/tides/eccentricity_funcs/__init__.py', ['eccentricity_truncations'])
     # also every helper defined in the helper modules (even if not registered)
     for l in LS:
         mh_l = repo.by_path(f'TidalPy/tides/modes/mode_calc_helper/eccen_calc_orderl{l}.py')
